@@ -33,7 +33,13 @@ static PShmBuffer *grave[64]; static int ngrave;   /* `abandon`: handles whose h
 int __real_sem_wait (sem_t *);
 int __real_sem_post (sem_t *);
 static int pend_wait, pend_post, fail_wait, fail_post;
-int __wrap_sem_wait (sem_t *s) { if (fail_wait) { fail_wait = 0; errno = EINVAL; return -1; } return __real_sem_wait (s); }
+/* fail_wait == 1: the call fails (EINVAL, not performed); fail_wait = N >= 2: it is interrupted N-1 times (-1 / EINTR, not
+ * performed) before it is performed */
+int __wrap_sem_wait (sem_t *s) {
+	if (fail_wait == 1) { fail_wait = 0; errno = EINVAL; return -1; }
+	if (fail_wait >= 2) { if (--fail_wait == 1) fail_wait = 0; errno = EINTR; return -1; }
+	return __real_sem_wait (s);
+}
 /* a failing sem_post REPORTS failure but the unit is posted (otherwise the buffer's lock would stay taken for good and every
  * later op of the history would block: the buffer model has no lock state; C07 models the lock itself) */
 int __wrap_sem_post (sem_t *s) { if (fail_post) { fail_post = 0; __real_sem_post (s); errno = EINVAL; return -1; } return __real_sem_post (s); }
@@ -304,7 +310,7 @@ int main (void) {
 		unsigned long h = 0; arg[0] = 0;
 		int n = sscanf (line, "%15s %lu %s", op, &h, arg);
 		if (n < 1) continue;
-		if (!strcmp (op, "failsem") && n == 3) { pend_wait = h != 0; pend_post = atoi (arg) != 0; puts ("ok"); fflush (stdout); continue; }
+		if (!strcmp (op, "failsem") && n == 3) { pend_wait = (int) (h > 9 ? 9 : h); pend_post = atoi (arg) != 0; puts ("ok"); fflush (stdout); continue; }
 		fail_wait = pend_wait; fail_post = pend_post; pend_wait = pend_post = 0;
 		if (!strcmp (op, "null") && n == 1) {
 			/* every public call with a NULL buffer / name / storage: no effect, -1 / NULL */
